@@ -256,7 +256,7 @@ CHECKS["C10"] = {
     "test": "TestC10",
     "quick": {"shards": 8, "checks": 3000},
     "thorough": {"shards": 16, "checks": 3000},
-    "rule": "rapid-generated sequences of block / undo / Verify(remember) of arbitrary live sets / serialize-and-restore steps on Pollard, a full MapPollard and a "
+    "rule": "rapid-generated sequences of block (in a quarter of them 1-2 added leaves re-create a spent leaf: they carry the hash of a leaf deleted in the same or an earlier block that is not live) / undo / Verify(remember) of arbitrary live sets / serialize-and-restore steps on Pollard, a full MapPollard and a "
             "partial MapPollard (generated TotalRows); after EVERY step every instance answers: GetLeafPosition and GetLeafHashPositions for every live "
             "tracked leaf, every deleted leaf, every leaf of an undone branch, fresh values, every inner node hash, every root hash and the zero hash; "
             "GetHash for every position in [0, 2^(rows+1)+8] plus {2^32, 2^32+1, 2^62, 2^63, 2^63+5, 2^64-2, 2^64-1}; tracked-leaf counts. Expected answers "
